@@ -123,7 +123,11 @@ func child(args []string) {
 			panicked, site, val, stack := core.Guard(func() { p.Run(rec, *seed, idx, *tier) })
 			if panicked {
 				// a panic that escaped the property's own guards
-				rec.Violate("panic", "panic@"+site, "engine panicked: "+core.Trunc(val, 200), map[string]any{"index": idx}, stack)
+				if site == "unknown" {
+					rec.HarnessFault("harness panic in case %d: %s\n%s", idx, val, core.Trunc(stack, 1500))
+				} else {
+					rec.Violate("panic", "panic@"+site, "engine panicked: "+core.Trunc(val, 200), map[string]any{"index": idx}, stack)
+				}
 			}
 		}()
 		select {
@@ -498,6 +502,7 @@ func parent(args []string) int {
 				}
 			}
 		}
+		broken = append(broken, r.rec.Broken...)
 		viols = append(viols, r.rec.Violations...)
 		violCount += r.rec.ViolCount
 		for _, s := range r.rec.Inconclusive {
